@@ -336,3 +336,10 @@ def write_evidence(ctx, level, checker_cmd, extra_cov=None, violations=0):
     tmp.write_text(json.dumps(jsonable(ev), indent=1))
     os.replace(tmp, p)
     return p
+
+
+def zarr_like(shape, chunks):
+    """a real (in-memory, lazily allocated) zarr array of the given geometry: stand-in objects would turn any harmless
+    use of another zarr attribute by the code under test into a harness failure"""
+    import zarr
+    return zarr.empty(shape=tuple(shape), chunks=tuple(chunks), dtype="i1", store=zarr.MemoryStore() if hasattr(zarr, "MemoryStore") else None)
